@@ -9,6 +9,7 @@ mod p_archive;
 mod p_c05;
 mod p_codec;
 mod p_io;
+mod prelude;
 mod proto;
 mod rng;
 mod spec;
@@ -155,8 +156,12 @@ fn main() {
         Some("worker") => {
             let stdin = std::io::stdin();
             let stdout = std::io::stdout();
+            let mut served = 0usize;
             for line in stdin.lock().lines() {
                 let Ok(line) = line else { break };
+                // refused operations first, on this thread (state left behind by them must not reach the case)
+                prelude::refused_ops(served);
+                served += 1;
                 let r = run_line(line.trim_end());
                 let mut o = stdout.lock();
                 let _ = writeln!(o, "{}", r.replace('\n', " "));
